@@ -42,8 +42,7 @@ def World.obj (w : World) (i : Nat) : Option Nat := (w.objs[i]?).join
 
 def rcOf (h : Heap) (id : Nat) : Nat := match h.objs id with | some o => o.rc | none => 0
 
-/-- the theorems of `Sqfs.Props.C19` speak about `drop n` / `sqfsCopy n` with `n` above the object id -/
-def fuel : Nat := 64
+def sqfsDropF (h : Heap) (x : Nat) : Heap := sqfsDrop h x
 def believedSize : Nat := 8
 
 /-- the probe of `h_c19.c`, evaluated on the model heap: facts about copy `c` relative to original `o`;
@@ -159,7 +158,7 @@ def step (D : Kind → CopyDesc) (w : World) (line : String) : World × String :
       let before := match w.h.objs o with
         | some ob => ob.refs.map fun r => match r with | some r => rcOf w.h r | none => 0
         | none => []
-      let (h, c) := sqfsCopy D fuel { w.h with budget := k } o
+      let (h, c) := sqfsCopyTop D { w.h with budget := k } o
       let h := { h with budget := none }
       match h.crash, c with
       | some cr, _ => ({ w with h := h }, s!"crash {cr.name}")
@@ -171,7 +170,7 @@ def step (D : Kind → CopyDesc) (w : World) (line : String) : World × String :
     | some i =>
       match w.obj i with
       | some id =>
-        let h := drop fuel w.h id
+        let h := sqfsDropF w.h id
         let w := { w with h := h, objs := w.objs.set i none }
         match h.crash with
         | some cr => (w, s!"crash {cr.name}")
@@ -184,18 +183,18 @@ def step (D : Kind → CopyDesc) (w : World) (line : String) : World × String :
     | none => (w, "bad-op")
   | ["ungrab", t] =>
     match (targetIx t).bind w.obj with
-    | some id => let h := drop fuel w.h id; ({ w with h := h }, s!"ungrab {t} {rcOf h id}")
+    | some id => let h := sqfsDropF w.h id; ({ w with h := h }, s!"ungrab {t} {rcOf h id}")
     | none => (w, "bad-op")
   | ["rcs"] => (w, s!"rcs file={if w.envAlive then rcOf w.h w.file else 0} cmp={if w.envAlive then rcOf w.h w.cmp else 0}")
   | ["dropenv"] =>
     if w.envAlive then
-      let h := drop fuel (drop fuel w.h w.file) w.cmp
+      let h := sqfsDropF (sqfsDropF w.h w.file) w.cmp
       ({ w with h := h, envAlive := false }, match h.crash with | some cr => s!"crash {cr.name}" | none => "dropenv")
     else (w, "dropenv")
   | ["end"] =>
     -- teardown as in the harness: drop what is left, then the environment; then the leak check
-    let h := w.objs.foldl (fun h o => match o with | some id => drop fuel h id | none => h) w.h
-    let h := if w.envAlive then drop fuel (drop fuel h w.file) w.cmp else h
+    let h := w.objs.foldl (fun h o => match o with | some id => sqfsDropF h id | none => h) w.h
+    let h := if w.envAlive then sqfsDropF (sqfsDropF h w.file) w.cmp else h
     let cls := match h.crash with
       | some cr => cr.name
       | none => if liveCount h = 0 then "ok" else "leak"
